@@ -143,8 +143,9 @@ def G.bytes (n : Nat) (g : G) : Nat := vecBytes n (g.rank + 1) g.size
 /-- the `GLWELayout {base2k: key.base2k, k: a.max_k(), rank: a.rank}` built in the cross-radix branches -/
 def G.conv (g : G) (b2k : Nat) : G := ⟨g.rank, ceilDiv g.maxK b2k, b2k⟩
 
-/-- lwe_encrypt_sk_tmp_bytes / lwe_decrypt_tmp_bytes: `LWEPlaintext::bytes_of(size) + normalize` -/
-def tbLwe (n size : Nat) : Nat := vecBytes 1 1 size + normTmp n
+/-- lwe_encrypt_sk_tmp_bytes / lwe_decrypt_tmp_bytes:
+`LWEPlaintext::bytes_of(size).next_multiple_of(DEFAULTALIGN) + normalize` -/
+def tbLwe (n size : Nat) : Nat := roundUp (vecBytes 1 1 size) + normTmp n
 /-- `lwe_encrypt_sk`: assert; `take_vec_znx(1,1,size)`; `vec_znx_normalize_assign(scratch_1)` -/
 def treeLweEncryptSk (n size : Nat) : AllocTree :=
   .need (tbLwe n size) (.take (vecBytes 1 1 size) (treeNormalize n))
@@ -178,7 +179,7 @@ def treeGlweEncryptSk (be : BE) (n : Nat) (g : G) : AllocTree :=
 def tbGlweEncryptPk (be : BE) (n size : Nat) : Nat :=
   let lvl0 := svpBytes be n 1
   let lvl1 := max (dftBytes be n 1 size + bigBytes be n 1 size) (scalarBytes n 1)
-  let lvl2 := normTmp n
+  let lvl2 := bigNormTmp be n
   lvl0 + lvl1 + lvl2
 
 /-- `glwe_encrypt_pk`: `pkSize` = `pk.size()` -/
@@ -190,7 +191,7 @@ def treeGlweEncryptPk (be : BE) (n : Nat) (g : G) (pkSize : Nat) : AllocTree :=
 
 /-- glwe_decrypt_tmp_bytes -/
 def tbGlweDecrypt (be : BE) (n size : Nat) : Nat :=
-  bigBytes be n 1 size + max (dftBytes be n 1 size) (normTmp n)
+  bigBytes be n 1 size + max (dftBytes be n 1 size) (bigNormTmp be n)
 
 def treeGlweDecrypt (be : BE) (n : Nat) (g : G) : AllocTree :=
   .need (tbGlweDecrypt be n g.size)
@@ -247,7 +248,7 @@ def tbGlweKeyswitch (be : BE) (n : Nat) (res a : G) (k : K) : Nat :=
   let lvl2 :=
     if a.b2k ≠ k.b2k then
       let ac := a.conv k.b2k
-      ac.bytes n + max (tbGlweNormalize n) (tbKsInternal be n ac k)
+      ac.bytes n + max (max (tbGlweNormalize n) (tbKsInternal be n ac k)) (bigNormTmp be n)
     else tbKsInternal be n a k
   lvl0 + max lvl1 lvl2
 
@@ -330,13 +331,23 @@ def treeGlweAutomorphismAdd (be : BE) (n : Nat) (res a : G) (k : K) : AllocTree 
         .take (ac.bytes n) (.alt (treeGlweNormalize n) (.alt (treeKsInternal be n cols ac k) post))
        else .alt (treeKsInternal be n cols a k) post))
 
-/-- glwe_trace_tmp_bytes(res, a, key) -/
-def tbGlweTrace (be : BE) (n : Nat) (res a : G) (k : K) : Nat :=
+/-- glwe_trace_assign_tmp_bytes(res, a, key): scratch of the in-place trace -/
+def tbGlweTraceAssign (be : BE) (n : Nat) (res a : G) (k : K) : Nat :=
   let lvl0 := tbGlweAutomorphism be n res a k
   if a.b2k ≠ k.b2k then
     lvl0 + (vecBytes n (k.rankOut + 1) (ceilDiv (min res.maxK a.maxK) k.b2k) + normTmp n)
   else
     lvl0 + (if res.maxK > a.maxK then res.bytes n else a.bytes n)
+
+/-- the temporary of `glwe_trace`: key radix, `k = max(a.max_k, res.max_k)`, rank of `res` -/
+def traceTmp (res a : G) (k : K) : G := ⟨res.rank, ceilDiv (max a.maxK res.maxK) k.b2k, k.b2k⟩
+
+/-- glwe_trace_tmp_bytes(res, a, key): temporary + in-place trace on it, and never less than the in-place formula -/
+def tbGlweTrace (be : BE) (n : Nat) (res a : G) (k : K) : Nat :=
+  let tmp := traceTmp res a k
+  let lvl0 := tmp.bytes n
+  let lvl1 := max (tbGlweNormalize n) (tbGlweTraceAssign be n tmp tmp k)
+  max (lvl0 + lvl1) (tbGlweTraceAssign be n res a k)
 
 /-- the loop of `glwe_trace_assign` when `res` is already in the key's radix -/
 def treeTraceLoop (be : BE) (n iters : Nat) (res : G) (k : K) : AllocTree :=
@@ -344,17 +355,17 @@ def treeTraceLoop (be : BE) (n iters : Nat) (res : G) (k : K) : AllocTree :=
 
 /-- `glwe_trace_assign(res, skip, keys)`; `iters = log_n - skip` -/
 def treeGlweTraceAssign (be : BE) (n iters : Nat) (res : G) (k : K) : AllocTree :=
-  .need (tbGlweTrace be n res res k)
+  .need (tbGlweTraceAssign be n res res k)
     (if res.b2k ≠ k.b2k then
       let rc := res.conv k.b2k
       .take (rc.bytes n)
         (.alt (treeGlweNormalize n)
-          (.alt (.need (tbGlweTrace be n rc rc k) (treeTraceLoop be n iters rc k)) (treeGlweNormalize n)))
+          (.alt (.need (tbGlweTraceAssign be n rc rc k) (treeTraceLoop be n iters rc k)) (treeGlweNormalize n)))
      else treeTraceLoop be n iters res k)
 
 /-- `glwe_trace(res, skip, a, keys)` -/
 def treeGlweTrace (be : BE) (n iters : Nat) (res a : G) (k : K) : AllocTree :=
-  let tmp : G := ⟨res.rank, ceilDiv (max a.maxK res.maxK) k.b2k, k.b2k⟩
+  let tmp : G := traceTmp res a k
   .need (tbGlweTrace be n res a k)
     (.take (tmp.bytes n)
       (.alt (if a.b2k = k.b2k then .done else treeGlweNormalize n)
